@@ -9,6 +9,7 @@
  * MODE 4: owner (queue at upper boundary, pre-filled a,b) push c (re-centres), pop | thief take
  * MODE 5: owner (queue at lower boundary, pre-filled a) put b (re-centres), pop    | thief take
  * MODE 6: owner (pre-filled a) pop            | other worker trypass b, take
+ * MODE 9: owner (queue at lower boundary, pre-filled a) pop | other worker trypass b (must be refused or really stored), take
  * MODE 7: owner (pre-filled a,b) pop          | thief peek (hint is NULL or a descriptor that was in the queue), take */
 #ifndef MODE
 #define MODE 0
@@ -44,7 +45,7 @@ void verif_init(void){
   SLOTS[CAP/2] = &TA; SLOTS[CAP/2 + 1] = &TB; Q.top = CAP/2 + 2; inserted = 2;
 #elif MODE == 4
   SLOTS[CAP-2] = &TA; SLOTS[CAP-1] = &TB; Q.base = CAP - 2; Q.top = CAP; inserted = 2;
-#elif MODE == 5
+#elif MODE == 5 || MODE == 9
   SLOTS[0] = &TA; Q.base = 0; Q.top = 1; inserted = 1;
 #endif
 }
@@ -77,7 +78,7 @@ void t1(void){ obtained(myth_queue_take(&Q)); }
 void t0(void){ myth_queue_put(&Q, &TB); obtained(myth_queue_pop(&Q)); }
 void t1(void){ obtained(myth_queue_take(&Q)); }
 #define INS 2
-#elif MODE == 6
+#elif MODE == 6 || MODE == 9
 volatile int passed;
 void t0(void){ obtained(myth_queue_pop(&Q)); }
 void t1(void){ passed = myth_queue_trypass(&Q, &TB); obtained(myth_queue_take(&Q)); }
